@@ -373,6 +373,10 @@ func (tbls *TBLS) commitPhase(ctx context.Context, pk []byte) {
 }
 
 func (tbls *TBLS) combineShares() []byte {
+	// Messages of the peers are handled concurrently and record their public keys in the same map
+	tbls.lock.Lock()
+	defer tbls.lock.Unlock()
+
 	for _, party := range tbls.parties {
 		if party == tbls.Party {
 			continue
